@@ -100,7 +100,7 @@ def parse_smtlib(text: str):  # noqa: C901
                 pos += 1
                 if char in (' ', '\t', '\n', '\r'):
                     break
-                if char in ('(', ')', ';'):
+                if char in ('(', ')', ';', '"', '|'):
                     pos -= 1
                     break
                 token.append(char)
